@@ -92,7 +92,7 @@ InitProv == [chan |-> IF KIND = "V2" THEN "NONE" ELSE "OPEN",
              commit |-> EmptyFn, receipt |-> {}, ack |-> EmptyFn, async |-> {}]
 
 \* After the harness' set-up: A is one block ahead of what B's client knows.
-InitChain(h0) == [h |-> h0, bt |-> [p \in 0..h0 |-> p + 1],   \* (MC runs use SKEW = 0) hist |-> [p \in 0..h0 |-> InitProv],
+InitChain(h0) == [h |-> h0, bt |-> [p \in 0..h0 |-> p + 1], hist |-> [p \in 0..h0 |-> InitProv],
                   cur |-> InitProv, cons |-> {0}, frozen |-> FALSE, log |-> <<>>, app |-> {}]
 
 InitState == [now |-> 2, ch |-> [c \in Chains |-> InitChain(1)]]
